@@ -152,6 +152,49 @@ def gen_edit(rng, var):
     return "m:%s:%s" % (var, e)
 
 
+def gen_cast_case(rng):
+    """Dtypes aimed at the case split of canBeCastedTo / isCyclic: a block of 2-3 distinct builtins, k repetitions of it (as
+    tuple of the block struct and as flat struct), repetitions with one entry of a later cycle changed at position 0 / at a
+    position >= 1, with an entry of the first cycle changed, and a length that is not a multiple.  The cast matrix of the
+    case compares every pair in both directions, before and after the round trip."""
+    elems = rng.sample(["float", "int", "double", "char", "short", "long", "bool"], rng.choice([2, 2, 3]))
+    d = len(elems)
+    k = rng.choice([2, 2, 3]) if d == 2 else 2
+    toks = ["x%d=b:%s" % (i + 1, e) for i, e in enumerate(elems)]
+    alt = rng.choice([e for e in ["float", "int", "double", "char", "short", "long", "bool"] if e not in elems])
+    toks.append("x%d=b:%s" % (d + 1, alt))
+    var = {e: "x%d" % (i + 1) for i, e in enumerate(elems)}
+    var[alt] = "x%d" % (d + 1)
+    nxt = [d + 2]
+
+    def struct_of(fl):
+        v = "x%d" % nxt[0]
+        nxt[0] += 1
+        toks.append("%s=s::0:0:%s" % (v, ",".join("%s=%s" % (FIELDS[j % len(FIELDS)] + str(j // len(FIELDS) or ""), var[e])
+                                                  for j, e in enumerate(fl))))
+        return v
+
+    blk = struct_of(elems)
+    v = "x%d" % nxt[0]
+    nxt[0] += 1
+    toks.append("%s=t:%s:%d:0" % (v, blk, k))                 # tuple of the block: k cycles
+    struct_of(elems * k)                                       # the same, spelled out
+    late = list(elems * k)
+    late[rng.randrange(1, k) * d + rng.randrange(1, d)] = alt   # later cycle, position >= 1
+    struct_of(late)
+    late0 = list(elems * k)
+    late0[rng.randrange(1, k) * d] = alt                       # later cycle, position 0
+    struct_of(late0)
+    first = list(elems * k)
+    first[rng.randrange(d)] = alt                              # the compared prefix
+    struct_of(first)
+    if rng.random() < 0.5:
+        struct_of((elems * k)[:-1])                            # not a multiple
+    else:
+        struct_of(elems * (k + 1))
+    return " ".join(toks)
+
+
 def fixed_cases():
     """Deterministic batch: every builtin through the round trip, the cast lattice of the builtins, the library's own
     test dtypes (tests/src/dtype.cpp), references counted by addField/tuple."""
@@ -175,6 +218,9 @@ def fixed_cases():
         "x1=c::0:0 x2=c:foo:12:0 x3=y:x2 x4=s::0:0:a=x2 x5=n:bar:x2:0 x6=n:bar:x1:1",
         "x1=b:none x2=b:memory",
         "K:empty:",
+        # the case split of isCyclic: {float,int} against {float,int,float,double}, {float,int,float,int}, 3 cycles, late mismatches
+        "x1=b:float x2=b:int x3=b:double x4=s::0:0:a=x1,b=x2 x5=s::0:0:a=x1,b=x2,c=x1,d=x3 x6=s::0:0:a=x1,b=x2,c=x1,d=x2 "
+        "x7=t:x4:3:0 x8=s::0:0:a=x1,b=x2,c=x1,d=x2,e=x1,f=x3 x9=s::0:0:a=x1,b=x2,c=x3,d=x2 x10=s::0:0:a=x1,b=x3",
     ]
     return cases
 
@@ -400,6 +446,7 @@ def run(run, tier, seed, replay_case=None):
     rng = random.Random(seed * 7919 + 11)
     n = 1500 if tier == "quick" else 40000
     main = list(C.load_corpus(PROP)) + fixed_cases() + [gen_case(rng, tier) for _ in range(n)]
+    main += [gen_cast_case(rng) for _ in range(n // 10)]
     # cases outside the guards (recorded findings): one minimal case per finding in the quick tier
     known = list(KNOWN_CASES) + [gen_case(rng, tier, named=True) for _ in range(0 if tier == "quick" else 12)]
     if replay_case is not None:
